@@ -74,6 +74,10 @@ struct ChildResult {
 }
 
 fn run_child(bin: &str, prop: &str, tier: Tier, seed: u64, root: &PathBuf, extra: &[String]) -> Result<ChildResult, String> {
+    run_child_env(bin, prop, tier, seed, root, extra, &[])
+}
+
+fn run_child_env(bin: &str, prop: &str, tier: Tier, seed: u64, root: &PathBuf, extra: &[String], envs: &[(&str, &str)]) -> Result<ChildResult, String> {
     let report = root.join("work").join(format!("child-{}-{}.json", prop, std::process::id()));
     let _ = std::fs::create_dir_all(root.join("work"));
     let _ = std::fs::remove_file(&report);
@@ -83,6 +87,7 @@ fn run_child(bin: &str, prop: &str, tier: Tier, seed: u64, root: &PathBuf, extra
         .arg("--child-report")
         .arg(&report)
         .args(extra)
+        .envs(envs.iter().copied())
         .output()
         .map_err(|e| format!("cannot run {}: {}", bin, e))?;
     let stdout = String::from_utf8_lossy(&out.stdout).to_string();
@@ -410,9 +415,12 @@ fn cmd_check(a: &Args) -> i32 {
     if failure.is_none() && inconclusive.is_none() {
         if let (Some(bin), Some(only)) = (a.opts.get("dev-bin"), checks::deep_subs(prop)) {
             let extra: Vec<String> = vec!["--only".into(), only.join(",")];
-            match run_child(bin, prop, tier, seed, &root, &extra) {
+            // C01: the worker threads of this run get 256 KiB of stack (what a thread-per-connection server or a C
+            // runtime with small default stacks gives a decode; the unchanged library needs well under 64 KiB)
+            let envs: &[(&str, &str)] = if prop == "C01" { &[("RUST_MIN_STACK", "262144")] } else { &[] };
+            match run_child_env(bin, prop, tier, seed, &root, &extra, envs) {
                 Ok(c) => {
-                    profiles.push(J::s("devcheck (library at opt-level 0)"));
+                    profiles.push(J::s(if prop == "C01" { "devcheck (library at opt-level 0, worker threads with 256 KiB of stack)" } else { "devcheck (library at opt-level 0)" }));
                     child_evals += c.evals;
                     if let Some((sub, input, msg)) = c.failure {
                         failure = Some((sub, input, format!("[library built without optimisation] {}", msg), "devcheck"));
